@@ -531,7 +531,7 @@ def run_conc(tier, seed):
         argsets = []
         while len(argsets) < T:
             a = pg.gen_args(P, rng)
-            a = a + [rng.choice(pg.INT_VALUES) if P["ptypes"][p] == "int" else rng.choice(pg.FLAG_VALUES) for p in range(len(a), len(P["params"]))]
+            a = a + [pg.value_for(P["ptypes"][p], rng) for p in range(len(a), len(P["params"]))]
             argsets.append(a)
         jobs.append((i, P, argsets, "threads" if i % 2 == 0 else "gather", rng.randrange(1 << 30)))
     chunks = [jobs[i:i + 10] for i in range(0, len(jobs), 10)]
